@@ -39,19 +39,23 @@ def build_harness(fams):
     t0 = time.time()
     env = dict(os.environ)
     env["CARGO_NET_OFFLINE"] = "true"
-    cmd = ["cargo", "build", "--release", "--offline", "--quiet"]
-    for f in fams:
-        cmd += ["--bin", f]
-    for attempt in (1, 2):
-        p = subprocess.run(cmd, cwd=HARNESS,
-                           stdout=subprocess.PIPE, stderr=subprocess.STDOUT, text=True, env=env)
-        if p.returncode == 0 or attempt == 2:
-            break
-        # a build killed by memory pressure or a stale lock is retried once; a tree that does not compile fails twice
-        time.sleep(5)
-    if p.returncode != 0:
-        sys.stdout.write(p.stdout[-6000:])
-        raise ToolError("harness build failed (does /repo still compile?)")
+    # two builds of every driver: "release" with overflow checks and debug assertions on (the repository's
+    # test profile), and "plain" without them (what a downstream user runs); see PROFILE below
+    for prof in ([["--release"], ["--profile", "plain"]] if PROFILE == "mixed" else
+                 [["--release"]] if PROFILE == "checked" else [["--profile", "plain"]]):
+        cmd = ["cargo", "build"] + prof + ["--offline", "--quiet"]
+        for f in fams:
+            cmd += ["--bin", f]
+        for attempt in (1, 2):
+            p = subprocess.run(cmd, cwd=HARNESS,
+                               stdout=subprocess.PIPE, stderr=subprocess.STDOUT, text=True, env=env)
+            if p.returncode == 0 or attempt == 2:
+                break
+            # a build killed by memory pressure or a stale lock is retried once; a tree that does not compile fails twice
+            time.sleep(5)
+        if p.returncode != 0:
+            sys.stdout.write(p.stdout[-6000:])
+            raise ToolError("harness build failed (does /repo still compile?)")
     log("harness built in %.1fs" % (time.time() - t0))
 
 
@@ -143,16 +147,17 @@ def emit_behaviours(module, cfg, workdir, outfile, workers=None, timeout=1500, x
 
 # --------------------------------------------------------------------------- drivers
 
+PROFILE = os.environ.get("VERIF_PROFILE", "mixed")
 DEATHS = []   # driver processes that died outside any run (filled by run_driver_shard)
 
 
-def run_driver_shard(fam, tier, seed, shard, nshards, outbase, extra, max_restarts=4, budget=0):
+def run_driver_shard(fam, tier, seed, shard, nshards, outbase, extra, max_restarts=4, budget=0, prof="release"):
     """Run one shard; restart behind a crash/hang. Returns list of log files."""
     files = []
     skip = 0
     for attempt in range(max_restarts + 1):
         out = "%s.%d.log" % (outbase, attempt)
-        cmd = [os.path.join(HARNESS, "target", "release", fam), "--tier", tier, "--seed", str(seed), "--shard", "%d/%d" % (shard, nshards),
+        cmd = [os.path.join(HARNESS, "target", prof, fam), "--tier", tier, "--seed", str(seed), "--shard", "%d/%d" % (shard, nshards),
                "--out", out, "--skip", str(skip)]
         if budget:
             cmd += ["--budget", str(budget)]
@@ -201,10 +206,21 @@ def run_drivers(fam, tier, seed, workdir, extra=None, nshards=None, budget=0):
     nshards = nshards or NCPU
     extra = extra or []
     t0 = time.time()
+    # every shard runs in the build with overflow checks and debug assertions ("release" profile of the harness);
+    # every fourth shard (shifted by the seed) runs a second time in the build without them ("plain": what a
+    # downstream user gets), so that a side effect inside debug_assert! or a silently wrapping overflow shows.
+    # VERIF_PROFILE=checked|plain pins one build for all shards.
+    if PROFILE == "checked":
+        jobs = [(s, "release") for s in range(nshards)]
+    elif PROFILE == "plain":
+        jobs = [(s, "plain") for s in range(nshards)]
+    else:
+        jobs = [(s, "release") for s in range(nshards)] + \
+               [(s, "plain") for s in range(nshards) if (s + int(seed)) % 4 == 1 or nshards < 4]
     with ThreadPoolExecutor(max_workers=NCPU) as ex:
         futs = [ex.submit(run_driver_shard, fam, tier, seed, s, nshards,
-                          os.path.join(workdir, "%s-%d" % (fam, s)), extra, 4, budget)
-                for s in range(nshards)]
+                          os.path.join(workdir, "%s-%d-%s" % (fam, s, prof)), extra, 4, budget, prof)
+                for (s, prof) in jobs]
         files = []
         for f in futs:
             files += f.result()
